@@ -164,6 +164,15 @@ pub fn exec_probe<M: Machine>(tr: &Trace, stats: &mut Stats, mut probe: Option<&
             if let Some(v) = check_slot::<M>(&w, *a, cfg, stats) {
                 return (Some(v), reach);
             }
+            if prop == Prop::C09 && M::FAMILY != Family::Sum {
+                if let (Some(b), Some(&c)) = (alternation_partner::<M>(&w, *a), confs.first()) {
+                    if let (Some(sa), Some(sb)) = (w.get(*a), w.get(b)) {
+                        if let Some(v) = alternation_probe::<M>(&sa.st, &sb.st, c, false, (*a, b), stats) {
+                            return (Some(v), reach);
+                        }
+                    }
+                }
+            }
         }
     }
     for i in w.live() {
@@ -250,6 +259,9 @@ pub fn generate<M: Machine>(property: &str, verif_seed: u64, run: u64, size: Siz
     }
     if property == "C08" && flt != Flt::Int && M::FAMILY == Family::Mean && r.chance(0.06) {
         family = FAM_INT_BEYOND_MANTISSA;
+    }
+    if property == "C09" && flt != Flt::Int && M::FAMILY != Family::Sum && r.chance(0.08) {
+        family = FAM_POW2;
     }
     let exact_data = family == FAM_EXACT && !positive && flt != Flt::Int;
     let max_len = match size {
